@@ -339,7 +339,7 @@ def _absent_nominal(ctx, rid, b, app):
         lst, cnt = (absent.left, absent.right) if isinstance(absent.left, ast.List) else (absent.right, absent.left)
         vals = A.const_value(lst) if isinstance(lst, ast.List) else None
         zero = isinstance(vals, list) and len(vals) == 1 and vals[0] == 0
-        length_ok = "channel_nbins[channel]" in A.unparse(cnt).replace(" ", "")
+        length_ok = "channel_nbins[channel]" in A.unparse(A.expand_locals(app.node, cnt)).replace(" ", "")
         if not length_ok:
             ctx.violated(rid, app, absent, "the stand-in nominal of an absent sample does not have the channel's bin count", expected="[0.0] * self.config.channel_nbins[channel]", found=A.short(absent, 60), node=absent)
         elif zero or b.name != "_nominal_builder":
